@@ -153,18 +153,43 @@ class Inst:
     def __init__(self, L, org, exe, kind, idx):
         self.kind = kind
         self.org = org
+        self.L, self.exe, self.idx, self.gen = L, exe, idx, 0
         self.dir = os.path.join(L.dir, "hs-%s-%d" % (kind, idx))
         os.makedirs(self.dir, exist_ok=True)
         os.chmod(self.dir, 0o777)
+        self.lock = threading.Lock()
+        self.start()
+
+    def start(self):
+        L, exe, kind = self.L, self.exe, self.kind
+        self.gen += 1
+        name = "c47%s%dg%dp%d" % (kind, self.idx, self.gen, os.getpid())
+        for f in os.listdir(self.dir):
+            if f.startswith("started."):
+                os.unlink(os.path.join(self.dir, f))
         if kind == "acl":
             self.sq = L.squid(extra_conf="external_acl_type vext ttl=0 negative_ttl=0 children-max=1 children-startup=0 "
                                          "children-idle=1 concurrency=%d %%URI %s %s conc\nacl e external vext\n" % (LIMIT, exe, self.dir),
-                              access="http_access allow e\nhttp_access deny all", name="c47%s%dp%d" % (kind, idx, os.getpid()))
+                              access="http_access allow e\nhttp_access deny all", name=name)
         else:
             conc = LIMIT if kind == "rw" else 0
             self.sq = L.squid(extra_conf="url_rewrite_program %s %s %s\nurl_rewrite_children 1 startup=0 idle=1 concurrency=%d\n"
-                                         % (exe, self.dir, "conc" if conc else "plain", conc), name="c47%s%dp%d" % (kind, idx, os.getpid()))
-        self.lock = threading.Lock()
+                                         % (exe, self.dir, "conc" if conc else "plain", conc), name=name)
+
+    def died(self):
+        """None while squid runs; else why it stopped (and squid is started again for the next scenario)"""
+        if self.sq.alive():
+            return None
+        why = self.sq.log_has("assertion failed", "FATAL")
+        txt = self.sq.log_tail(6000)
+        m = re.search(r"(assertion failed[^\n]*|FATAL[^\n]*)", txt)
+        reason = (m.group(1) if m else ("exit " + ",".join(why))).replace(" ", "_")[:120]
+        try:
+            self.sq.stop()
+        except Exception:
+            pass
+        self.start()
+        return reason
 
     def nstarted(self):
         return len([f for f in os.listdir(self.dir) if f.startswith("started.")])
@@ -208,8 +233,11 @@ def run_one(inst, s, sid):
     res = [None] * (n + 1)
 
     def one(k):
-        r, raw = lab.get(sq.port, orig_url(port, sid, k), headers=[("X-K", str(k))], total=4.0)
-        res[k] = r.status if r is not None else None
+        try:
+            r, raw = lab.get(sq.port, orig_url(port, sid, k), headers=[("X-K", str(k))], total=4.0)
+            res[k] = r.status if r is not None else None
+        except OSError:
+            res[k] = None
 
     ths = []
     for k in range(1, n + 1):
@@ -231,6 +259,9 @@ def run_one(inst, s, sid):
     # squid notices the exit and starts a fresh process (channel ids from 1 again) before the next scenario
     expect = (started0 if started0 else 1) + 1
     wait_for(lambda: inst.nstarted() >= expect, 4.0)
+    reason = inst.died()
+    if reason:
+        return "squid-died " + reason
     log = inst.logtxt(sid)
     if s["kind"] != "rw0":
         got = re.findall(r" recv (\d+) \S*?/q(\d+)", log)
@@ -274,7 +305,7 @@ POOL = {"rw": 4, "acl": 2, "rw0": 1}
 
 
 def run_impl(L, scenarios):
-    if "inst" not in _state or not all(i.sq.alive() for v in _state["inst"].values() for i in v):
+    if "inst" not in _state:
         org = L.origin()
         exe = helper_exe(L)
         _state["org"] = org
@@ -292,6 +323,7 @@ def run_impl(L, scenarios):
         inst, jobs = item
         for idx, s, sid in jobs:
             try:
+                inst.died()
                 out[idx] = run_one(inst, s, sid)
             except Exception as ex:
                 out[idx] = "driver-error %s" % (str(ex)[:200].replace("\n", " "))
@@ -312,6 +344,8 @@ def oracle(s, obs):
     port, sid = s.get("_port"), s.get("_sid")
     if port is None:
         return ("oracle:not-run", "scenario was not executed")
+    if obs.startswith("squid-died"):
+        return ("oracle:squid-died", "squid stopped while reading the helper's replies: " + obs)
     if obs.startswith(("id-mismatch", "driver-error")):
         return ("oracle:lab-" + obs.split()[0], "the lab could not establish the scenario: " + obs)
     port, sid = 0, "000000"                      # observations are canonical (port and scenario id digits zeroed)
